@@ -18,6 +18,10 @@ def configs(tier):
         names = ("a.ics", "b.ics", "c.ics")
         bods = ("U1a", "U1b", "UC", "USP", "UESC", "U2", "TZ1", "NOUID", "NOUID2", "UL1a", "UL1b", "ULP")
     out = [
+        # names whose extension is not lower case (git back ends; a vdir only lists *.ics)
+        e1common.StoreCfg(label="store:tree+bare+mem/upper-case-extension", kinds=("tree", "bare", "mem"), names=("A.ICS", "b.ics", "c.Ics"), bodies=bods[:4], oracles={"C06"}, features={"restart"}),
+        Config(front="wsgi", backend="tree", prefix="/dav/", names={"cal": ["A.ICS", "b.ics"], "ab": [], "c2": []}, bodies={"cal": list(bods[:4]), "ab": [], "c2": []},
+               features={"restart"}, oracles={"C06"}, label="tree/wsgi@/dav/+upper-case-extension"),
         e1common.StoreCfg(kinds=("tree", "bare", "mem", "vdir"), names=names, bodies=bods, oracles={"C06"}, features={"restart", "etagargs"}),
         Config(front="wsgi", backend="tree", prefix="/", names={"cal": list(names[:2]), "ab": [], "c2": []}, bodies={"cal": list(bods[:5]), "ab": [], "c2": []},
                features={"restart", "post", "burst"}, oracles={"C06"}),
@@ -30,6 +34,8 @@ def configs(tier):
 
 def run(tier, workers=None):
     def depth_of(cfg):
+        if "upper-case" in cfg.label and tier == "quick":
+            return (2, None)
         if isinstance(cfg, e1common.StoreCfg):
             return (3, None) if tier == "quick" else (5, 8000)
         return (3, None) if tier == "quick" else (5, 5000)
